@@ -20,4 +20,6 @@ class SizeExtractor:
             if os.path.islink(backup_copy):
                 return 0
             else:
-                raise
+                # a .trashinfo without its file: the size is unknown, but
+                # the other entries must still be listed
+                return '?'
